@@ -69,9 +69,8 @@ NextRoot ==
      ELSE /\ pc' = "done" /\ UNCHANGED <<ri, queue, visited, stack, found, out>>
   /\ UNCHANGED <<w, roots, win, dfs, limit>>
 
-(* canonical_depth(dir) - base_depth: levels between the current root and directory e *)
-DepthBelowRoot(e) == LevelBelow(w, roots[ri], e)
-
+(* (the level of a directory's entries is handed down: one more than the level of the directory it was found in; the queue  *)
+(*  of the breadth-first mode holds it next to the entry)                                                                  *)
 (* `break` out of the entry loop: a streamed query has found `limit` rows *)
 LimitBreak ==
   /\ pc = "roots" /\ stack # <<>> /\ ~Top.draining /\ Top.unread # {} /\ LimitReached
@@ -95,11 +94,11 @@ PickOne(e) ==
         /\ found' = IF report THEN found + 1 ELSE found
         /\ visited' = IF cand THEN visited \cup {e} ELSE visited
         /\ IF go /\ dfs
-           THEN /\ stack' = Append(SetTop(rest), [dir |-> e, depth |-> DepthBelowRoot(e) + 1,
+           THEN /\ stack' = Append(SetTop(rest), [dir |-> e, depth |-> f.depth + 1,
                                                   unread |-> ChildrenOf(w, e), pq |-> FALSE, draining |-> FALSE])
                 /\ queue' = queue
            ELSE /\ stack' = SetTop(rest)
-                /\ queue' = IF go THEN Append(queue, e) ELSE queue
+                /\ queue' = IF go THEN Append(queue, <<e, f.depth + 1>>) ELSE queue
   /\ UNCHANGED <<w, roots, win, dfs, limit, ri, pc>>
 
 (* readdir order is arbitrary: any unread entry may come next *)
@@ -116,8 +115,8 @@ EndOfDir ==
 Dequeue ==
   /\ pc = "roots" /\ stack # <<>> /\ Top.draining
   /\ IF queue # <<>>
-     THEN /\ stack' = Append(stack, [dir |-> Head(queue), depth |-> DepthBelowRoot(Head(queue)) + 1,
-                                     unread |-> ChildrenOf(w, Head(queue)), pq |-> FALSE, draining |-> FALSE])
+     THEN /\ stack' = Append(stack, [dir |-> Head(queue)[1], depth |-> Head(queue)[2],
+                                     unread |-> ChildrenOf(w, Head(queue)[1]), pq |-> FALSE, draining |-> FALSE])
           /\ queue' = Tail(queue)
      ELSE /\ stack' = Pop /\ queue' = queue
   /\ UNCHANGED <<w, roots, win, dfs, limit, ri, visited, found, out, pc>>
